@@ -140,17 +140,25 @@ class Ctx:
         failing = [o for o in self.obligations if not o["ok"]]
         new: List[Dict[str, Any]] = []
         matched_known: List[Dict[str, Any]] = []
-        for o in failing:
-            hit = None
-            for k in known:
-                if (k.get("rule") == o["rule"] and k.get("file") == o["file"]
-                        and k.get("function") == o["function"]
-                        and same_construct(k.get("construct"), o["construct"])):
-                    hit = k
-                    break
-            if hit is not None:
+        # one known entry absorbs at most one failing obligation: first the obligations whose construct text is exactly the recorded
+        # one, then - for the entries still free - obligations whose construct equals it up to variable names (a renamed local).
+        # A further site of the same shape (e.g. a fourth early-binding assignment) finds no free entry and is reported as new.
+        free = list(known)
+        hit_of: Dict[int, Dict[str, Any]] = {}
+        for exact in (True, False):
+            for idx, o in enumerate(failing):
+                if idx in hit_of:
+                    continue
+                for k in free:
+                    if k.get("rule") == o["rule"] and k.get("file") == o["file"] and k.get("function") == o["function"] and (
+                            k.get("construct") == o["construct"] if exact else same_construct(k.get("construct"), o["construct"])):
+                        hit_of[idx] = k
+                        free.remove(k)
+                        break
+        for idx, o in enumerate(failing):
+            if idx in hit_of:
                 o["known_finding"] = True
-                matched_known.append({"finding": hit, "obligation": o})
+                matched_known.append({"finding": hit_of[idx], "obligation": o})
             else:
                 new.append(o)
 
